@@ -84,6 +84,21 @@ def gen_history(rng: random.Random, kmax: int) -> dict:
             writes.append([pos, ln, rng.getrandbits(32)])
             pos += ln
         return {"copier": rng.random() < 0.5, "writes": writes, "reuse_buffer": rng.random() < 0.5}
+    if rng.random() < 0.06:
+        # offset and length whose bytes, written one after the other in a record header, read 45 4F 46 across the field boundary
+        # (offset ..454F + length 46xx, offset ....45 + length 4F46): ordinary records, nothing to refuse
+        copier = rng.random() < 0.5
+        d = 0x200 if copier else 0
+        for _ in range(rng.randint(1, 3)):
+            if rng.random() < 0.5:
+                addr, ln = (rng.randrange(0x40) << 16 | 0x454F) - d, 0x4600 + rng.randrange(0x100)
+            else:
+                addr, ln = (rng.randrange(0x4000) << 8 | 0x45) - d, 0x4F46
+            if rng.random() < 0.3:
+                addr, ln = addr - 0xFFFF, ln + 0xFFFF          # the same pair as the tail record of a split block
+            if addr >= 0:
+                writes.append([addr, ln, rng.getrandbits(32)])
+        return {"copier": copier, "writes": writes, "reuse_buffer": False}
     for _ in range(rng.choice([1, 1, 2, 2, 3, 4, 6])):
         ln = gen_len(rng, kmax)
         if len(writes) >= 2 and rng.random() < 0.2:
@@ -98,7 +113,7 @@ def gen_history(rng: random.Random, kmax: int) -> dict:
             writes.append([addr, ln, rng.getrandbits(32)])
             continue
         writes.append([gen_addr(rng, ln), ln, rng.getrandbits(32)])
-    return {"copier": rng.random() < 0.5, "writes": writes, "reuse_buffer": rng.random() < 0.25}
+    return {"copier": rng.random() < 0.5, "writes": writes, "reuse_buffer": rng.random() < 0.25, "debug_logging": rng.random() < 0.2}
 
 
 def content_for(w: list) -> bytes:
@@ -141,6 +156,16 @@ def run_history(res: Res, hist: dict) -> None:
         return orig_header(self, block, block_address)
 
     IPSWriter.write_block_header = tapped
+    import logging
+
+    if hist.get("debug_logging"):
+        # the host program (or x816 --verbose) has switched logging to DEBUG: what is logged is no input of the file that is written
+        logging.disable(logging.NOTSET)
+        root = logging.getLogger()
+        old_level, old_handlers = root.level, list(root.handlers)
+        root.handlers = [logging.NullHandler()]
+        root.setLevel(logging.DEBUG)
+        res.count("histories_with_debug_logging")
     try:
         w = IPSWriter(buf, copier)
         w.begin()
@@ -177,6 +202,10 @@ def run_history(res: Res, hist: dict) -> None:
         w.end()
     finally:
         IPSWriter.write_block_header = orig_header
+        if hist.get("debug_logging"):
+            root.setLevel(old_level)
+            root.handlers = old_handlers
+            logging.disable(logging.CRITICAL)
 
     res.count("tap_write_block_header", len(headers))
     raw = buf.getvalue()
